@@ -343,8 +343,9 @@ fn permutations(n: usize) -> Vec<Vec<u64>> {
 /// (pairs more than i32::MAX apart, ties), every assignment of distinct creation instants (also created earlier but
 /// added later), all added to MAIN and popped; plus every interleaving of add / pop of length <= 7 over three saliences.
 fn c07_order_extreme_salience_search() -> (bool, String) {
+    let (max_n, max_inter) = (crate::bound(4, 5), crate::bound(7, 9));
     let mut tried = 0u64;
-    for n in 1..=4usize {
+    for n in 1..=max_n {
         let perms = permutations(n);
         let mut idx = vec![0usize; n];
         loop {
@@ -386,7 +387,7 @@ fn c07_order_extreme_salience_search() -> (bool, String) {
                 return (true, v);
             }
         }
-        if s.len() < 7 {
+        if s.len() < max_inter {
             for o in &alphabet {
                 let mut t = s.clone();
                 t.push(o.clone());
@@ -394,7 +395,7 @@ fn c07_order_extreme_salience_search() -> (bool, String) {
             }
         }
     }
-    (false, format!("{} histories (<= 4 activations over 7 saliences incl. i32::MIN/MAX and +-2e9 with every creation order; add/pop interleavings of length <= 7), all in agenda order", tried))
+    (false, format!("{} histories (<= {} activations over 7 saliences incl. i32::MIN/MAX and +-2e9 with every creation order; add/pop interleavings of length <= {}), all in agenda order", tried, max_n, max_inter))
 }
 
 /// flags in one agenda group: every 2- and 3-sequence of activations over rule {a,b} x salience {0,5} x activation group
@@ -416,8 +417,9 @@ fn c07_flags_one_group_search() -> (bool, String) {
     }
     // scripts: 'F' fire, 'P' pop only, 'R' reset, '0'/'1'/'2' add a fresh copy of that template of the history
     let scripts = ["FFFF", "FRFFF", "F0FFF", "FF1FF", "PFFF", "FFRFF", "F0RFFF", "FRF0FF", "FF0R1FFF", "F1F0FRFFF", "PPPP", "FP0FRFF"];
+    let max_n = crate::bound(3, 4);
     let mut tried = 0u64;
-    for n in 2..=3usize {
+    for n in 2..=max_n {
         let mut idx = vec![0usize; n];
         loop {
             let adds: Vec<T> = idx.iter().map(|i| templates[*i]).collect();
@@ -450,7 +452,7 @@ fn c07_flags_one_group_search() -> (bool, String) {
             }
         }
     }
-    (false, format!("{} histories (2-3 activations over 32 flag/group/salience templates x {} control scripts), no-loop / activation-group / order as the reference", tried, scripts.len()))
+    (false, format!("{} histories (2-{} activations over 32 flag/group/salience templates x {} control scripts), no-loop / activation-group / order as the reference", tried, max_n, scripts.len()))
 }
 
 /// agenda groups and focus: 2-3 activations over rule {a,b} x salience {0,5} x agenda group {MAIN,G} x lock_on_active
@@ -468,9 +470,10 @@ fn c07_focus_search() -> (bool, String) {
         }
     }
     let control = [Op::Fire, Op::Focus(1), Op::Focus(0), Op::Reset];
+    let longer = crate::bound(0, 1); // thorough tier: control sequences one operation longer
     let mut tried = 0u64;
     for n in 2..=3usize {
-        let max_c = if n == 2 { 4 } else { 3 };
+        let max_c = (if n == 2 { 4 } else { 3 }) + longer;
         let mut seqs: Vec<Vec<Op>> = vec![];
         let mut stack: Vec<Vec<Op>> = vec![vec![]];
         while let Some(s) = stack.pop() {
@@ -511,7 +514,7 @@ fn c07_focus_search() -> (bool, String) {
             }
         }
     }
-    (false, format!("{} histories (2-3 activations over two agenda groups x every control sequence over fire / set_focus / reset), focused group and order as the reference", tried))
+    (false, format!("{} histories (2-3 activations over two agenda groups x every control sequence of <= {} (2 activations) / <= {} (3 activations) operations over fire / set_focus / reset), focused group and order as the reference", tried, 4 + longer, 3 + longer))
 }
 
 /// fixed-seed pseudo-random histories of 14 operations over the whole alphabet (3 rules, 7 saliences, 3 agenda groups,
@@ -524,7 +527,7 @@ fn c07_mixed_history_search() -> (bool, String) {
         s ^= s << 17;
         (s >> 11) % n
     };
-    let n_hist = 60_000u64;
+    let n_hist = crate::bound(60_000, 600_000) as u64;
     for _ in 0..n_hist {
         let mut ops = Vec::new();
         let small = rnd(2) == 0; // half of the histories draw from a small alphabet so that collisions are frequent
